@@ -9,7 +9,7 @@ CONSTANTS
   TokOf <- Tok3
   Homes <- Homes3r
   WaitModes = {}
-  LockParts = {1}
+  LockParts = {}
   ReqStates = {"A", "I"}
 INIT Init
 NEXT Next
